@@ -23,6 +23,7 @@ FUNCTIONS = ["AbstractOption._validate_flags/_validate_short_name/_add_default_f
              "Argument._validate_flags/_add_default_flags/__init__/set_default/parse + predicates", "CommandOption.__init__/_validate_*_alias",
              "utils.string.parse_string/parse_boolean/parse_int/parse_float"]
 PART = {}
+EXTRA_BOUNDS = 'also: 0-5 leading dashes before bodies <= 2 (thorough 3) chars; set_default(each of 7 default kinds incl. a tuple / no argument) after construction with each kind; name alphabet incl. long-s and Kelvin sign; int round trip also around 2**53, -10**19, 10**30.'
 BOUNDS = {"quick": "E2: every 16-bit flag word x short-name presence (one unsat query per obligation); E1 constructors: structured flag words (6 low bits x type-bit selections x NULLABLE x undefined bits) for options, [0,1024) for arguments x short name x default kind {none, scalar, list, empty string, 0, empty list}; "
                    "names: length <= 3 over {a,Z,1,-,_,e-acute,newline,long-s,Kelvin-sign} with and without dash prefix; conversions: int text of every int with |n| <= 10**6, texts of length <= 3 over {1,-,.,e,n,u,l,i,f,space}",
           "thorough": "same with names up to length 4 and conversion texts up to length 4"}
